@@ -356,7 +356,8 @@ impl<'a, R: Rec> Engine<'a, R> {
                 let m = alloc::harness(|| format!("reference to {} (align {}) at record base+{} is misaligned: record at address = {} mod {}", self.meta.data[a.datum].name, a.align, a.addr.wrapping_sub(a.base), a.base % a.align.max(1), a.align));
                 self.v("C07/ref-aligned", m);
             }
-            if a.addr < a.base || a.addr + a.size > a.base + R::CAP.max(0) && a.size > 0 {
+            // zero-size data included: an access at an offset beyond the capacity is outside the record
+            if a.addr < a.base || a.addr + a.size > a.base + R::CAP {
                 let m = alloc::harness(|| format!("reference to {} covers bytes {}..{} of a record of capacity {}", self.meta.data[a.datum].name, a.addr.wrapping_sub(a.base), a.addr.wrapping_sub(a.base) + a.size, R::CAP));
                 self.v("C07/in-bounds", m);
             }
@@ -1802,6 +1803,97 @@ pub fn gen_ops(rng: &mut Rng, focus: Focus, faults: bool) -> Vec<Op> {
     ops
 }
 
+/// Directed tour of one definition: a handful of short histories that call every generated function of
+/// every variant at least once (constructors by both routes, every accessor, every conversion form, clone,
+/// clone_from, the three serde arms, unpack, drop, vector conversion with and without a failing converter).
+/// Generated functions are straight-line, so one execution covers each of them; the seeded histories add
+/// the interleavings.
+pub fn gen_tour(meta: &DefMeta, faults: bool) -> Vec<Vec<Op>> {
+    let mut tours = Vec::new();
+    let clean = IoPlan::clean();
+    let nv = meta.variants.len();
+    for v in 0..nv {
+        let v8 = v as u8;
+        let nf = meta.variants[v].fields.len() as u8;
+        // accessors, writes, placements
+        let mut h = vec![Op::New { v: v8, uninit: false, place: 0, via_from: false }, Op::Get { r: 0, stack: true }];
+        for f in 0..nf {
+            h.push(Op::Set { r: 0, f });
+            h.push(Op::Mutate { r: 0, f });
+        }
+        h.push(Op::Move { r: 0, place: 1 });
+        h.push(Op::Move { r: 0, place: 2 });
+        h.push(Op::Get { r: 0, stack: false });
+        h.push(Op::Unpack { r: 0 });
+        tours.push(h);
+        // the mandatory-only constructor and the From routes
+        tours.push(vec![
+            Op::New { v: v8, uninit: true, place: 1, via_from: false },
+            Op::New { v: v8, uninit: true, place: 2, via_from: true },
+            Op::New { v: v8, uninit: false, place: 0, via_from: true },
+            Op::Get { r: 0, stack: false },
+            Op::Get { r: 1, stack: false },
+            Op::Get { r: 2, stack: true },
+            Op::Drop { r: 0 },
+            Op::Unpack { r: 0 },
+        ]);
+        // clone, clone_from (and every panic position in the fault arm)
+        if meta.has_clone {
+            let mut h = vec![Op::New { v: v8, uninit: false, place: 0, via_from: false }, Op::Clone { r: 0, panic_at: 0, place: 1 }, Op::Set { r: 1, f: 0 }, Op::CloneFrom { dst: 0, src: 0, panic_at: 0 }, Op::Drop { r: 0 }];
+            if faults {
+                h.push(Op::CloneSweep { r: 0, from: false });
+                h.push(Op::CloneSweep { r: 0, from: true });
+            }
+            tours.push(h);
+        }
+        // the three serde arms, round trip and (fault arm) every fault position
+        if meta.has_serde {
+            for fmt in [Fmt::Json, Fmt::Bincode, Fmt::JsonValue] {
+                let mut h = vec![
+                    Op::New { v: v8, uninit: false, place: 0, via_from: false },
+                    Op::Encode { r: 0, fmt, io: clean, enc_fail_at: 0 },
+                    Op::Decode { r: 0, fmt, mutation: StreamMut::None, io: clean, de_fail_at: 0, place: 1 },
+                ];
+                if faults {
+                    for kind in 0..4 {
+                        h.push(Op::DecodeSweep { r: 0, fmt, kind });
+                    }
+                    h.push(Op::Decode { r: 0, fmt, mutation: StreamMut::Extra, io: clean, de_fail_at: 0, place: 0 });
+                    h.push(Op::Decode { r: 0, fmt, mutation: StreamMut::Missing, io: clean, de_fail_at: 0, place: 0 });
+                    h.push(Op::Decode { r: 0, fmt, mutation: StreamMut::WrongType(1), io: clean, de_fail_at: 0, place: 0 });
+                }
+                tours.push(h);
+            }
+        }
+        // every conversion form to the next variant, single records and vectors
+        if v + 1 < nv {
+            for form in 0..4u8 {
+                tours.push(vec![
+                    Op::New { v: v8, uninit: false, place: form % 3, via_from: false },
+                    Op::Convert { r: 0, form },
+                    Op::Get { r: 0, stack: true },
+                    Op::New { v: v8, uninit: true, place: 0, via_from: false },
+                    Op::Convert { r: 1, form },
+                    Op::VecConvert { r: 0, n: 3, form, script: vec![VAct::Conv, VAct::Abandon, VAct::Conv], spare: 1 },
+                    Op::Drop { r: 0 },
+                ]);
+            }
+            if faults {
+                for (i, fault) in [VAct::ErrHolding, VAct::ErrDropped, VAct::PanicHolding, VAct::PanicConverted].into_iter().enumerate() {
+                    tours.push(vec![Op::New { v: v8, uninit: false, place: 0, via_from: false }, Op::VecConvert { r: 0, n: 3, form: i as u8, script: vec![VAct::Conv, fault, VAct::Conv], spare: 0 }]);
+                }
+            }
+        }
+    }
+    // chains of conversions from the first to the last variant, each form throughout
+    if nv > 1 {
+        for forms in [0u32, 0x5555_5555, 0xaaaa_aaaa, 0xffff_ffff, 0x1b1b_1b1b] {
+            tours.push(vec![Op::New { v: 0, uninit: false, place: 0, via_from: false }, Op::Chain { r: 0, forms }, Op::Get { r: 0, stack: false }]);
+        }
+    }
+    tours
+}
+
 pub fn gen_case(ctx: &Ctx, seed: u64, run: u64, focus: Focus, faults: bool, init_skipped: bool, defs: &[usize], max_ops: usize) -> Case {
     let mut rng = Rng::new(derive(seed, 0x5133 + focus as u64 * 2 + faults as u64, run));
     let e = &ctx.registry[defs[rng.below(defs.len())]];
@@ -1929,6 +2021,66 @@ pub fn cli(ctx: &Ctx, args: &[String]) -> i32 {
             rep.nontrivial_distinct_local = nontrivial;
             rep.states = states.len() as u64;
             rep.kmv = seen.iter().take(2048).copied().collect();
+            println!("{}", serde_json::to_string(&rep).unwrap());
+            0
+        }
+        "tour" => {
+            // directed tours of (a slice of) the definitions; same report shape as `batch`
+            let seed: u64 = arg(args, "--seed").unwrap_or("0").parse().unwrap();
+            let faults = arg(args, "--faults").unwrap_or("on") == "on";
+            let init_skipped = args.iter().any(|a| a == "--init-skipped");
+            let trace = args.iter().any(|a| a == "--trace-cases");
+            let max_defs: usize = arg(args, "--max-defs").and_then(|s| s.parse().ok()).unwrap_or(usize::MAX);
+            let part: usize = arg(args, "--part").and_then(|s| s.parse().ok()).unwrap_or(0);
+            let parts: usize = arg(args, "--parts").and_then(|s| s.parse().ok()).unwrap_or(1);
+            let mut progress = crate::Progress::open(arg(args, "--progress"));
+            let defs = select_defs(ctx, seed, max_defs);
+            let mut rep = BatchReport { mode: format!("tour/{}", if faults { "faults" } else { "fault-free" }), ..Default::default() };
+            let mut hash = FNV_INIT;
+            let mut states: BTreeSet<u64> = BTreeSet::new();
+            let mut index = 0u64;
+            'outer: for (k, &di) in defs.iter().enumerate() {
+                if k % parts != part {
+                    continue;
+                }
+                let e = &ctx.registry[di];
+                for ops in gen_tour((e.meta)(), faults) {
+                    let case = Case { def: e.def.to_string(), cap: e.cap.to_string(), cfg: RunCfg { faults, init_skipped }, ops };
+                    if trace {
+                        eprintln!("CASE {}", serde_json::to_string(&case).unwrap());
+                    }
+                    progress.mark(index);
+                    index += 1;
+                    let o = (e.run)(&case.ops, &case.cfg);
+                    rep.runs += 1;
+                    rep.steps += o.steps;
+                    rep.skipped_ops += o.skipped;
+                    fold(&mut hash, o.hash);
+                    for (k, v) in &o.ops {
+                        *rep.ops.entry(k.to_string()).or_default() += v;
+                    }
+                    for (k, v) in &o.faults {
+                        *rep.fault_fired.entry(k.clone()).or_default() += v;
+                    }
+                    for (k, v) in &o.probes {
+                        *rep.probes.entry(k.to_string()).or_default() += v;
+                    }
+                    *rep.defs.entry(format!("{}/{}", case.def, case.cap)).or_default() += 1;
+                    for s in &o.states {
+                        states.insert(*s);
+                    }
+                    if !o.violations.is_empty() {
+                        rep.violations.push(ReportedViolation { run: None, case, violations: o.violations });
+                        if rep.violations.len() >= 8 {
+                            break 'outer;
+                        }
+                    }
+                }
+            }
+            rep.hash = format!("{:016x}", hash);
+            rep.distinct_local = rep.runs;
+            rep.nontrivial_distinct_local = rep.runs;
+            rep.states = states.len() as u64;
             println!("{}", serde_json::to_string(&rep).unwrap());
             0
         }
